@@ -389,6 +389,8 @@ def method_blocks(src: str) -> dict[str, tuple[str, dict[str, list[str]]]]:
 def stmt_path(s: str) -> list:
     if s == "return None":
         return ["PNone"]
+    if s.startswith("return  # Explicit return for async generator"):
+        return ["PEndIter"]
     if s == "return response.text":
         return ["PText"]
     if s == "return response.content":
@@ -539,7 +541,10 @@ def oracle(inp: dict, run: list, annotation: str = "Any") -> list[str]:
     if run[0] == "exc":
         return [f"{what}: the call raised {run[1]}"]
     if e is None:
-        return [] if run[0] == "ret" and run[2] is None else [f"{what}: expected None, got {run[1]}"]
+        # "a declared response without content returns None"; when the method is an async generator (streaming
+        # operation) the reading is: the iteration yields nothing and ends
+        ok = (run[0] == "ret" and run[2] is None) or (run[0] == "stream" and run[2] == [])
+        return [] if ok else [f"{what}: expected None / an empty iteration, got {run[1]}"]
     b = e["body"]
     if "sse" in b or "ndjson" in b:
         if run[0] != "stream":
@@ -844,7 +849,7 @@ def main(chk: Check, replay: dict | None = None) -> int:
         codes = chk.coq_eval(imports, "dcase * pobs",
                              [f"({c_dcase(c['input'])}, ({c_path(c['obs']['path'])}, {cbool(c['obs']['imported'])}, {cstr(c['obs']['annotation'])}))"
                               for c in cases], "run", shard=150, prelude=prelude)
-    chk.decide(cases, codes, {1: "F05b", 2: "F05c", 3: "F05f", 4: "F05h", 5: "F05i"},
+    chk.decide(cases, codes, {1: "F05b", 2: "F05c", 3: "F05f", 4: "F05i"},
                "Corr.C05.run: handle/module_has_cattrs/resolve (model) = decode expression, import and annotation in the generated source")
     # (A) function level
     n = 4000 if chk.thorough else 900
